@@ -208,6 +208,10 @@ func (x *Exec) solveOne(o *Oblig, prelude string, cfg solveCfg) {
 			// feasible unless the hypotheses are contradictory
 			if r == "unsat" {
 				o.Status, o.Backend = "infeasible", s.name
+				if cfg.dumpDir != "" {
+					os.MkdirAll(cfg.dumpDir, 0o755)
+					os.WriteFile(filepath.Join(cfg.dumpDir, "INFEASIBLE_"+sanitizeFile(o.Name)+"__"+sanitizeFile(o.Path)+".smt2"), []byte(ss[0].hdr+q), 0o644)
+				}
 			} else {
 				o.Status, o.Backend = "feasible", s.name
 			}
